@@ -11,7 +11,7 @@ FUEL = 150
 MAX_TIMEOUTS_PER_GRAMMAR = 4
 RECHECK_BUDGET = 100.0      # seconds per check run spent on repeating timed-out observations
 _recheck_spent = [0.0]
-DROPPED = {'timeouts_not_rechecked': 0, 'grammars_cut_short': 0}
+DROPPED = {'timeouts_not_rechecked': 0, 'grammars_cut_short': 0, 'constructions_not_rechecked': 0}
 
 
 def _worker(batch, slow=False):
@@ -92,10 +92,18 @@ def _recheck_timeouts(recs, jobs):
     for k, r in enumerate(recs):
         if r.get('cut_short'):
             DROPPED['grammars_cut_short'] += 1
-        if r.get('grammar_error') == 'timeout' and time.time() < deadline:
-            fresh = _worker([byid[r['gid']]], slow=True)[0]
-            recs[k] = fresh
-            r = fresh
+        if r.get('grammar_error') == 'timeout':
+            if time.time() < deadline:
+                fresh = _worker([byid[r['gid']]], slow=True)[0]
+                if fresh.get('grammar_error') == 'timeout':
+                    fresh['grammar_error'] = 'timeout:confirmed (Grammar() did not return within 120 s, alone in the parent process)'
+                recs[k] = fresh
+                r = fresh
+            else:
+                # a construction that timed out in a worker and could not be repeated within the budget is machine load
+                # until shown otherwise: it is not an observation (counted in the evidence, never reported)
+                r['grammar_error'] = 'unconfirmed-timeout'
+                DROPPED['constructions_not_rechecked'] += 1
         if 'ex' not in r:
             continue
         if any(c[5] == 'timeout' or c[6] == 'timeout' for c in r['cases']):
@@ -248,6 +256,9 @@ def compare(R, recs, stream, mechanism_of=None, check_parse=True, sample_every=9
         hist[k] = hist.get(k, 0) + 1
     n = 0
     for r in recs:
+        if r.get('grammar_error') == 'unconfirmed-timeout':
+            bump('grammar:unconfirmed-timeout')
+            continue
         if 'grammar_error' in r:
             bump('grammar:' + r['grammar_error'].split(':')[0] + ':' + r['grammar_error'].split(':')[1][:20]
                  if ':' in r['grammar_error'] else 'grammar:' + r['grammar_error'])
